@@ -7,6 +7,10 @@ import (
 )
 
 // mergeVal builds ite(c, a, b) on values; ok=false if the shapes differ.
+// fpMixed allows integer-valued symbolic floats to be mixed with non-integer
+// constants by switching to IEEE terms (set per unit: cap "fp").
+var fpMixed bool
+
 func mergeVal(c *Term, a, b Value) (Value, bool) {
 	switch x := a.(type) {
 	case *Term:
@@ -20,12 +24,20 @@ func mergeVal(c *Term, a, b Value) (Value, bool) {
 		if !ok {
 			return nil, false
 		}
-		if x.Sym == nil && y.Sym == nil && (x.F == y.F && math.Signbit(x.F) == math.Signbit(y.F) || (x.F != x.F && y.F != y.F)) {
+		if x.isConc() && y.isConc() && (x.F == y.F && math.Signbit(x.F) == math.Signbit(y.F) || (x.F != x.F && y.F != y.F)) {
 			return x, true
+		}
+		if x.FP != nil || y.FP != nil {
+			return FloatV{FP: Ite(c, x.asFP(), y.asFP())}, true
 		}
 		xi, xm, ok1 := x.asInt()
 		yi, ym, ok2 := y.asInt()
 		if !ok1 || !ok2 {
+			if fpMixed {
+				// an integer-valued symbolic float merged with a non-integer
+				// constant (NaN, a fraction): IEEE terms
+				return FloatV{FP: Ite(c, x.asFP(), y.asFP())}, true
+			}
 			return nil, false
 		}
 		return FloatV{Sym: Ite(c, xi, yi), Mag: math.Max(xm, ym)}, true
@@ -185,6 +197,9 @@ func valIdentical(a, b Value) bool {
 		y, ok := b.(FloatV)
 		if !ok {
 			return false
+		}
+		if x.FP != nil || y.FP != nil {
+			return x.FP == y.FP
 		}
 		if x.Sym != nil || y.Sym != nil {
 			return x.Sym == y.Sym
@@ -348,17 +363,20 @@ func selectVal(idx *Term, lo int, vals []Value) Value {
 		ts := make([]*Term, len(vals))
 		mag := 0.0
 		allSame := true
+		needFP := false
 		for i, v := range vals {
 			f := v.(FloatV)
-			if !(f.Sym == nil && x.Sym == nil && math.Float64bits(f.F) == math.Float64bits(x.F)) {
+			if !(f.isConc() && x.isConc() && math.Float64bits(f.F) == math.Float64bits(x.F)) {
 				allSame = false
+			}
+			if f.FP != nil {
+				needFP = true
+				continue
 			}
 			t, m, ok := f.asInt()
 			if !ok {
-				if allSame {
-					continue
-				}
-				panic(unsupported("symbolic index into non-integer floats"))
+				needFP = true
+				continue
 			}
 			ts[i] = t
 			mag = math.Max(mag, m)
@@ -366,10 +384,16 @@ func selectVal(idx *Term, lo int, vals []Value) Value {
 		if allSame {
 			return x
 		}
-		for _, t := range ts {
-			if t == nil {
+		if needFP {
+			// non-integer cells (fractions, NaN, general symbolic floats):
+			// select among IEEE terms
+			if !fpMixed {
 				panic(unsupported("symbolic index into non-integer floats"))
 			}
+			for i, v := range vals {
+				ts[i] = v.(FloatV).asFP()
+			}
+			return FloatV{FP: selectTerm(idx, lo, ts)}
 		}
 		return FloatV{Sym: selectTerm(idx, lo, ts), Mag: mag}
 	case *StructV:
